@@ -83,6 +83,7 @@ def build(R):
                    '   and TIMERS.events[%s][1] is self and TIMERS.events[%s][2] == mid("async_ready"))' % (T0, T0, T0, T0),
                    'implies(old(len(self.queue)) > 0, len(TIMERS.events) == %s)' % T0,
                    'forall("p:int", lambda p: implies(0 <= p and p < %s, TIMERS.events[p] == old(TIMERS.events[p])))' % T0,
+                   'forall("h:TimerHandle", lambda h: implies(old(allocated(h)), h.cancelled == old(h.cancelled)))',
                ])
     KEYS_OK = 'forall("i:ident", lambda i: implies(answers.has(i), answers.keyobj(i) is not None and ident(answers.keyobj(i)) == i))'
     R.contract(M, 'MulticastOutgoingQueue._remove_answers_from_queue', PROP, params={'answers': AT},
@@ -157,6 +158,7 @@ def build(R):
                ], modifies=['self.queue'], decreases='len(self.queue)')})
     install_classify(R)
     install_routing(R)
+    install_tc(R)
     # every answer of a group is sent inside [arrival + 20 + additional, arrival + aggregation + additional]:
     # a group is sent at an instant T with send_after <= T (async_ready pops only due groups) and, by the timer
     # invariant + ideal timers, T <= send_before
@@ -259,6 +261,11 @@ def install_routing(R):
                          },
                ensures=[
                    'mq_ok(self.out_queue) and mq_ok(self.out_delay_queue)',
+                   # timers are only ever added here (the queues arm their wake-ups), never cancelled or rewritten
+                   'len(TIMERS.events) >= old(len(TIMERS.events))',
+                   'forall("p:int", lambda p: implies(0 <= p and p < old(len(TIMERS.events)), TIMERS.events[p] == old(TIMERS.events[p])))',
+                   'forall("h:TimerHandle", lambda h: implies(old(allocated(h)), h.cancelled == old(h.cancelled)))',
+
                    'forall("j:int, m:int", lambda j, m: implies(0 <= j and j < len(self.out_queue.queue) and 0 <= m and m < len(self.out_delay_queue.queue), self.out_queue.queue[j] is not self.out_delay_queue.queue[m]))',
                    'implies(question_answers is None, len(SENT.events) == %s and len(self.out_queue.queue) == old(len(self.out_queue.queue)) '
                    '   and len(self.out_delay_queue.queue) == old(len(self.out_delay_queue.queue)))' % S0,
@@ -287,11 +294,86 @@ def install_routing(R):
                ])
 
 
+def install_tc(R):
+    """Truncated (TC) queries: held per source 400-500 ms after the last new packet, byte-identical repeats ignored,
+    then answered ONCE with every deferred packet (the union of the known answers is taken by async_response)."""
+    L = 'zeroconf._listener'
+    R.shape('AsyncListener', {'zc': 'Zeroconf', '_query_handler': 'QueryHandler', '_deferred': 'dict[str, list[DNSIncoming]]',
+                              '_timers': 'dict[str, TimerHandle]'})
+    R.shape('DNSIncoming', {'flags': 'int', 'data': 'bytes'})
+    R.spec('hq_ok', [('h', 'QueryHandler')], 'bool',
+           'h.zc is not None and h.out_queue is not None and h.out_delay_queue is not None and h.out_queue is not h.out_delay_queue '
+           'and mq_ok(h.out_queue) and mq_ok(h.out_delay_queue) and h.out_queue.zc is h.zc and h.out_delay_queue.zc is h.zc and '
+           'forall("j:int, m:int", lambda j, m: implies(0 <= j and j < len(h.out_queue.queue) and 0 <= m and m < len(h.out_delay_queue.queue), '
+           '   h.out_queue.queue[j] is not h.out_delay_queue.queue[m]))')
+    # a source has deferred packets exactly while a hold timer of this listener is pending for it
+    R.spec('tc_ok', [('l', 'AsyncListener')], 'bool',
+           'l.zc is not None and l.zc.loop is not None and l._query_handler is not None and '
+           'forall("a:str", lambda a: l._deferred.has(a) == l._timers.has(a)) and '
+           'forall("a:str", lambda a: implies(l._deferred.has(a), len(l._deferred[a]) > 0)) and '
+           'forall("a:str, b:str", lambda a, b: implies(a != b and l._timers.has(a) and l._timers.has(b), l._timers[a] is not l._timers[b])) and '
+           'forall("a:str, j:int", lambda a, j: implies(l._deferred.has(a) and 0 <= j and j < len(l._deferred[a]), '
+           '   l._deferred[a][j] is not None and l._deferred[a][j].now <= CLOCK.now)) and '
+           'forall("a:str", lambda a: implies(l._timers.has(a), l._timers[a] is not None and cls_is(l._timers[a], TimerHandle) and allocated(l._timers[a]) and not l._timers[a].cancelled '
+           '   and exists("p:int", lambda p: 0 <= p and p < len(TIMERS.events) and TIMERS.events[p][3] is l._timers[a] '
+           '        and TIMERS.events[p][1] is l and TIMERS.events[p][2] == mid("_respond_query"))))')
+    T0 = 'old(len(TIMERS.events))'
+    OTHERS = ['forall("a:str", lambda a: implies(a != addr, self._deferred.has(a) == old(self._deferred.has(a)) and self._timers.has(a) == old(self._timers.has(a)) '
+              '   and implies(self._timers.has(a), self._timers[a] is old(self._timers[a])) '
+              '   and implies(self._deferred.has(a), list_eq(self._deferred[a], old(self._deferred[a])))))',
+              'forall("h:TimerHandle", lambda h: implies(old(allocated(h)) and not (old(self._timers.has(addr)) and h is old(self._timers[addr])), h.cancelled == old(h.cancelled)))',
+              'forall("p:int", lambda p: implies(0 <= p and p < %s, TIMERS.events[p] == old(TIMERS.events[p])))' % T0]
+    HMOD = ['QuestionHistory._history[*]', 'MulticastOutgoingQueue.queue[*]', 'TIMERS.events', 'TimerHandle.cancelled[*]',
+            'SENT.events', 'AnswerGroup.send_after[*]', 'AnswerGroup.send_before[*]', 'AnswerGroup.answers[*]']
+    N0 = 'old(ite(self._deferred.has(addr), len(self._deferred[addr]), 0))'
+    R.contract(L, 'AsyncListener._respond_query', PROP,
+               params={'msg': 'opt[DNSIncoming]', 'addr': 'str', 'port': 'int', 'transport': 'object', 'v6_flow_scope': 'object'},
+               requires=['tc_ok(self)', 'hq_ok(self._query_handler)', 'msg is not None or self._deferred.has(addr)',
+                         'implies(msg is not None, msg.now <= CLOCK.now)'],
+               modifies=['self._deferred', 'self._timers'] + HMOD,
+               at_calls={'handle_assembled_query': [
+                   # answered once (the only call site), with every packet held for this source, in arrival order, and the current one
+                   'len(packets) == %s + ite(msg is not None, 1, 0)' % N0,
+                   'forall("j:int", lambda j: implies(0 <= j and j < %s, packets[j] is old(self._deferred[addr][j])))' % N0,
+                   'implies(msg is not None, packets[len(packets) - 1] is msg)',
+                   # the hold is over before the answer is built
+                   'not self._deferred.has(addr) and not self._timers.has(addr)']},
+               ensures=['tc_ok(self)', 'hq_ok(self._query_handler)',
+                        'not self._deferred.has(addr) and not self._timers.has(addr)',
+                        'implies(old(self._timers.has(addr)), old(self._timers[addr]).cancelled)'] + OTHERS)
+    DUP = ('(self._deferred.has(addr) and exists("j:int", lambda j: 0 <= j and j < len(self._deferred[addr]) '
+           'and self._deferred[addr][j].data == msg.data))')
+    TRUNC = '(msg.flags // 512 % 2 == 1)'
+    R.contract(L, 'AsyncListener.handle_query_or_defer', PROP,
+               params={'msg': 'DNSIncoming', 'addr': 'str', 'port': 'int', 'transport': 'object', 'v6_flow_scope': 'object'},
+               requires=['tc_ok(self)', 'hq_ok(self._query_handler)', 'msg is not None and msg.now <= CLOCK.now', 'msg.flags >= 0'],
+               modifies=['self._deferred', 'self._timers'] + HMOD,
+               ensures=['tc_ok(self)', 'hq_ok(self._query_handler)',
+                        # a complete query: answered now together with anything held for this source
+                        'implies(not %s, not self._deferred.has(addr) and not self._timers.has(addr))' % TRUNC,
+                        # a byte-identical repeat of a held packet: ignored, the hold is not extended
+                        'implies(%s and old(%s), heap_unchanged())' % (TRUNC, DUP),
+                        # a new truncated packet: appended, and the hold restarts 400-500 ms from now, replacing the old timer
+                        'implies(%s and not old(%s), self._deferred.has(addr) and len(self._deferred[addr]) == %s + 1 '
+                        '   and self._deferred[addr][%s] is msg '
+                        '   and forall("j:int", lambda j: implies(0 <= j and j < %s, self._deferred[addr][j] is old(self._deferred[addr][j]))) '
+                        '   and self._timers.has(addr) and fresh_obj(self._timers[addr]) and len(TIMERS.events) == %s + 1 '
+                        '   and TIMERS.events[%s][3] is self._timers[addr] and TIMERS.events[%s][1] is self and TIMERS.events[%s][2] == mid("_respond_query") '
+                        '   and CLOCK.now + 400 <= TIMERS.events[%s][0] and TIMERS.events[%s][0] <= CLOCK.now + 500 '
+                        '   and implies(old(self._timers.has(addr)), old(self._timers[addr]).cancelled) '
+                        '   and len(SENT.events) == old(len(SENT.events)))' % (TRUNC, DUP, N0, N0, N0, T0, T0, T0, T0, T0, T0)] + OTHERS,
+               loops={0: Loop(inv=['forall("j:int", lambda j: implies(0 <= j and j < _k0, _it0[j].data != msg.data))',
+                                   'len(_it0) == len(deferred)',
+                                   'forall("j:int", lambda j: implies(0 <= j and j < len(_it0), _it0[j] is deferred[len(deferred) - 1 - j]))'],
+                              modifies=[])})
+
+
 def configure(ctx, R):
     records.configure(ctx)
     install_generators(R)
     install_classify_generators(R)
     install_routing_generators(R)
+    install_tc_generators(R)
 
 
 NO_CONCRETE = set()
@@ -406,6 +488,51 @@ def install_classify_generators(R):
         qr.add_ucast_question_response({r: set() for r in pool if g.rng.random() < 0.3})
         return {'self': qr}
     R.generators[(QH, '_QueryResponse.answers')] = g_answers
+
+
+def install_tc_generators(R):
+    """A real AsyncListener (only the fields the TC path touches) in front of the routing world of g_route."""
+    L = 'zeroconf._listener'
+    g_route = R.generators[(QH, 'QueryHandler.handle_assembled_query')]
+
+    def mk(g):
+        from zeroconf._listener import AsyncListener
+        from zeroconf._protocol.incoming import DNSIncoming
+        kw = g_route(g)
+        qh, env, now = kw['self'], kw['__env__'], kw['__clock__']
+        base = kw['packets'][0].data
+        lst = AsyncListener.__new__(AsyncListener)
+        lst.zc = qh.zc
+        lst._query_handler = qh
+        lst._deferred = {}
+        lst._timers = {}
+        loop = qh.zc.loop
+
+        def pkt(tc, variant=0, at=None):
+            d = bytearray(base)
+            if tc:
+                d[2] |= 0x02
+            d[0], d[1] = 0, variant          # the id distinguishes otherwise equal packets
+            return DNSIncoming(bytes(d), ('1.2.3.4', 5353), None, at if at is not None else now)
+        for a in g.rng.sample(['1.2.3.4', '5.6.7.8'], g.rng.randint(0, 2)):
+            lst._deferred[a] = [pkt(True, v, now - g.rng.choice([0.0, 100.0, 300.0])) for v in range(g.rng.randint(1, 3))]
+            lst._timers[a] = loop.call_at((now + g.rng.choice([10.0, 250.0, 450.0])) / 1000.0, lst._respond_query, None, a, 5353, None, ())
+        return lst, pkt, kw, env, now
+
+    def g_defer(g):
+        lst, pkt, kw, env, now = mk(g)
+        tc = g.rng.random() < 0.75
+        msg = pkt(tc, g.rng.choice([0, 0, 1, 2, 3]))
+        return {'self': lst, 'msg': msg, 'addr': g.rng.choice(['1.2.3.4', '5.6.7.8', '9.9.9.9']), 'port': kw['port'],
+                'transport': kw['transport'], 'v6_flow_scope': (), '__env__': env, '__clock__': now}
+    R.generators[(L, 'AsyncListener.handle_query_or_defer')] = g_defer
+
+    def g_respond(g):
+        lst, pkt, kw, env, now = mk(g)
+        msg = None if g.rng.random() < 0.4 else pkt(False, 7)
+        return {'self': lst, 'msg': msg, 'addr': g.rng.choice(['1.2.3.4', '5.6.7.8', '9.9.9.9']), 'port': kw['port'],
+                'transport': kw['transport'], 'v6_flow_scope': (), '__env__': env, '__clock__': now}
+    R.generators[(L, 'AsyncListener._respond_query')] = g_respond
 
 
 def install_routing_generators(R):
